@@ -10,6 +10,7 @@ computed (fill of the unfilled group, or a successful autofill) after the last a
 must carry `c+p+1 … c+p+k` with `c`, `p` the node's counter of the account and the number of its contents pending
 in the mempool at that moment."""
 import itertools
+import os
 
 from translator import extract
 
@@ -203,7 +204,7 @@ def run(ctx):
               (100, 1, ['n1', 'aT', 's', 'iO']), (100, 0, ['n1', 'fT', 's', 'iO', 'fT', 's', 'iO']),
               (100, 0, ['n2', 'aT', 's', 'iF', 'iO', 'b', 'n1', 'aT', 's', 'iO']), (100, 1, ['n1', 'fT', 'aC', 's', 'iO']),
               (100, 0, ['n1', 'fT', 'iO', 'fT', 's', 'iO'])]
-    n_random = 3000 if ctx.tier == 'quick' else 40000
+    n_random = 3000 if ctx.tier == 'quick' else 100000
     max_len = 12 if ctx.tier == 'quick' else 40
     for _ in range(n_random):
         cases.append(gen_random(ctx.rng, max_len))
@@ -221,8 +222,14 @@ def run(ctx):
     lines = [f'{c} {p} ' + ' '.join(evs) for c, p, evs in cases]
     model = ctx.model(lines)
     shrunk = {}
-    for idx, (c0, p0, evs) in enumerate(cases):
-        toks, viol = run_history(c0, p0, evs, curve=('ed', 'sp', 'p2')[idx % 3] if idx % 7 == 0 else 'ed')
+    jobs = [(c0, p0, evs, ('ed', 'sp', 'p2')[idx % 3] if idx % 7 == 0 else 'ed') for idx, (c0, p0, evs) in enumerate(cases)]
+    if ctx.tier == 'thorough' and len(jobs) > 20000:
+        import multiprocessing as mp
+        with mp.get_context('fork').Pool(min(16, os.cpu_count() or 1)) as pool:   # results keep the case order: seed-deterministic
+            results = pool.starmap(run_history, jobs, chunksize=500)
+    else:
+        results = [run_history(*j) for j in jobs]
+    for idx, ((c0, p0, evs), (toks, viol)) in enumerate(zip(cases, results)):
         n_sent = sum(1 for t in toks if t.startswith('sent:'))
         ctx.case({'c': c0, 'p': p0, 'events': ' '.join(evs)}, nontrivial=n_sent > 0)
         ctx.count('length', min(len(evs), 40) // 4 * 4)
